@@ -18,7 +18,7 @@ ASSUMPTIONS = [
     "with-metadata listings are parsed back for hash names that Meta has a field for (md5, md5-dos2unix, etag, checksum); other names cannot be represented in that form",
 ]
 MONITORS = "projection of every entry compared before/after each persistent form"
-REQUIRED_COUNTERS = ["writes_through_a_view", "sqlite_rollbacks", "large_indexes", "same_key_histories", "sqlite_lazy_roundtrips", "json_roundtrips", "db_roundtrips", "sqlite_roundtrips", "dict_roundtrips", "tree_list_roundtrips", "sqlite_root_key_cases", "falsy_field_entries"]
+REQUIRED_COUNTERS = ["db_locations_spelled_through_the_environment", "written_indexes_with_unloadable_directories", "writes_through_a_view", "sqlite_rollbacks", "large_indexes", "same_key_histories", "sqlite_lazy_roundtrips", "json_roundtrips", "db_roundtrips", "sqlite_roundtrips", "dict_roundtrips", "tree_list_roundtrips", "sqlite_root_key_cases", "falsy_field_entries"]
 
 
 def mproj(m):
@@ -133,6 +133,16 @@ def run_shard(ctx):
                 entries = rindex(rng, False)
                 idx = DataIndex(entries)
                 before = {k: proj(e) for k, e in entries.items()}
+                if rng.random() < 0.2:
+                    # the index knows where its data is stored, but its directory objects are not there (not fetched yet), and the
+                    # owner's error hook swallows the load failures (as the collecting code's own hook does): every entry is written
+                    from dvc_data.index import ObjectStorage
+
+                    from .. import env as _env
+
+                    idx.storage_map.add_cache(ObjectStorage((), _env.local_odb(os.path.join(d, f"empty-cache{case}"))))
+                    idx.onerror = lambda *a, **kw: res.count("load_failures_swallowed_while_writing")
+                    res.count("written_indexes_with_unloadable_directories")
                 if any(p[0] != mproj(None) and p[1] for p in before.values()):
                     res.nontrivial(form, sorted(before.items(), key=repr))
                 res.sample({"form": form, "entries": len(entries), "example": [["/".join(k), before[k]] for k in list(before)[:2]]})
@@ -143,9 +153,26 @@ def run_shard(ctx):
                     res.count("json_roundtrips")
                     os.unlink(p)
                 else:
-                    write_db(idx, p)
-                    back = read_db(p)
+                    ps = p
+                    if rng.random() < 0.15:
+                        # the database location is spelled through the environment (the backend expands '~' and '$NAME')
+                        if rng.random() < 0.5:
+                            os.environ["VERIF_C20_DIR"] = d
+                            ps = os.path.join("$VERIF_C20_DIR", os.path.basename(p))
+                        elif os.environ.get("HOME"):
+                            os.environ["HOME"] = d
+                            ps = os.path.join("~", os.path.basename(p))
+                        res.count("db_locations_spelled_through_the_environment")
+                    home0 = os.environ.get("HOME")
+                    try:
+                        write_db(idx, ps)
+                        back = read_db(ps)
+                    finally:
+                        if home0 is not None:
+                            os.environ["HOME"] = home0
                     res.count("db_roundtrips")
+                    if ps != p and not os.path.isdir(p):
+                        raise AssertionError(f"harness: {ps} did not expand to {p}")
                     ctx.drop(p)
                 compare(before, back, form, case)
             elif form == "sqlite":
